@@ -1,13 +1,15 @@
 (* C09 driver body (after `open C09_model` and drvlib.ml).
-   run <fix> <page> <n> <offN,offP,offM,offA> <footN,footP,footM,footA> <conv> <scale> <nointer> <flags> <paths> <fids> <fs> <imgs> <ops...>
+   run <fix> <page> <n> <offN,offP,offM,offA> <footN,footP,footM,footA> <conv> <scale> <nointer> <flags> <tclass> <paths> <fids> <fs> <imgs> <ops...>
      conv : from:to:dt:res;...  (fmt letters N P M A, dt f4|f8) or -
      scale: fmt:dt:value:scaleid;... or - (scale factors the array writer computes)   nointer: 4 flags N P M A
      flags: <mixed-sign data><fewer than 3 axes><reshape keeps scale factors><image re-pointed after an own-file save>
+     tclass: 16 letters, row = image class N P M A, column = name family N P M A: class of the written file
      paths: N0,N1,P0,M1  (format letter + compressed flag), one per path NAME
      fids : 0,0,1        file identity behind each name (symlink / hard link / other spelling share one)
-     fs   : per FILE "-" (absent) or <v>:<dt>:<aff>[:<scaleid>], comma separated
+     fs   : per FILE "-" (absent) or <v>:<dt>:<aff>:<scaleid>:<class>, comma separated
      imgs : per slot "-" (empty) or A:<v>:<fmt>:<dt>:<aff> (an array image), comma separated
      ops  : L<s><p><T|F> F<s> U<s> E<s> D<s> S<s><p> B<s> X<s> (save onto a link to /dev/full) I<s> (int16) W<s><p> (save as uint8)
+            T<s><p> (to_filename) C<s><s2> (from_image into slot s2) M<s> (edit np.asanyarray(dataobj))
    -> ok <out>*   out: done | val:<v|G> | saved:<p>:<v|G>:<dt>:<aff>:<scaleid> | bytes:<v|G>:<dt>:<aff>
                        | ref:<enum> | crash | dead *)
 let split c s = if s = "" || s = "-" then [] else String.split_on_char c s
@@ -20,14 +22,15 @@ let triple s = match split ',' s with [a; b; c; d] -> (z_of_string a, z_of_strin
 let op_of tok =
   let n i = nat_of_int (digit tok.[i]) in
   match tok.[0] with
-  | 'L' -> Load (n 1, n 2, tok.[3] = 'T')
+  | 'L' -> Load (n 1, n 2, tok.[3] = 'T' || tok.[3] = 'R')   (* R: mmap='r', a read-only map - same aliasing *)
   | 'F' -> Fdata (n 1) | 'U' -> Uncache (n 1) | 'E' -> EditHdr (n 1) | 'D' -> SetDtype (n 1)
   | 'S' -> Save (n 1, n 2) | 'B' -> ToBytes (n 1) | 'X' -> SaveFull (n 1)
   | 'I' -> SetInt (n 1) | 'W' -> SaveU8 (n 1, n 2)
+  | 'T' -> ToFilename (n 1, n 2) | 'C' -> Clone (n 1, n 2) | 'M' -> EditMap (n 1)
   | _ -> failwith ("op " ^ tok)
 let str_err = function ENoImage -> "noimage" | ENoFile -> "nofile" | EShortRead -> "short_read"
   | ENoConversion -> "no_conversion" | ENotSerializable -> "not_serializable" | ENoSpace -> "nospace"
-  | EWriter -> "writer"
+  | EWriter -> "writer" | EClass -> "class"
 let str_out = function
   | ODone -> "done"
   | OVal v -> "val:" ^ str_v v
@@ -37,7 +40,7 @@ let str_out = function
   | OCrash -> "crash"
   | ODead -> "dead"
 let handle op args = match op, args with
-  | "run", fix :: page :: n :: offs :: foots :: conv :: scale :: nointer :: flags :: paths :: fids :: fs :: imgs :: ops ->
+  | "run", fix :: page :: n :: offs :: foots :: conv :: scale :: nointer :: flags :: tcls :: paths :: fids :: fs :: imgs :: ops ->
     let sel (a, b, c, d) = function Nii -> a | Pair -> b | Mgh -> c | Spm -> d in
     let convt = List.map (fun e -> match split ':' e with
         | [a; b; d; r] -> (((fmt_of a.[0], fmt_of b.[0]), dt_of d), dt_of r)
@@ -52,11 +55,12 @@ let handle op args = match op, args with
                   | _ -> failwith "scale") (split ';' scale);
               g_nointer = (fun f -> nointer.[match f with Nii -> 0 | Pair -> 1 | Mgh -> 2 | Spm -> 3] = '1');
               g_mixed = (flags.[0] = '1'); g_lowdim = (flags.[1] = '1'); g_reshape_ok = (flags.[2] = '1');
-              g_repoint = (flags.[3] = '1') } in
+              g_repoint = (flags.[3] = '1');
+              g_tclass = (fun x n -> fmt_of (tcls.[(match x with Nii -> 0 | Pair -> 1 | Mgh -> 2 | Spm -> 3) * 4
+                                               + (match n with Nii -> 0 | Pair -> 1 | Mgh -> 2 | Spm -> 3)])) } in
     let fs0 = List.map (fun s -> if s = "-" then None else match String.split_on_char ':' s with
-        | [v; d; a] -> Some { k_val = Some (nat_of_int (int_of_string v)); k_dt = dt_of d; k_aff = nat_of_int (int_of_string a); k_scl = O }
-        | [v; d; a; k] -> Some { k_val = Some (nat_of_int (int_of_string v)); k_dt = dt_of d; k_aff = nat_of_int (int_of_string a);
-                                 k_scl = nat_of_int (int_of_string k) }
+        | [v; d; a; k; c] -> Some { k_val = Some (nat_of_int (int_of_string v)); k_dt = dt_of d; k_aff = nat_of_int (int_of_string a);
+                                    k_scl = nat_of_int (int_of_string k); k_cls = fmt_of c.[0] }
         | _ -> failwith "fs") (String.split_on_char ',' fs) in
     let im0 = List.map (fun s -> if s = "-" then None else match String.split_on_char ':' s with
         | ["A"; v; f; d; a] -> Some { i_src = SArray (Some (nat_of_int (int_of_string v))); i_fmt = fmt_of f.[0];
